@@ -49,6 +49,9 @@ class C04(C01):
             res.append(("random", "H %s %s %s" % (b, m, " / ".join(" ".join(x) for x in builds))))
         return res
 
+    def project(self, line):
+        return line
+
     def nontrivial(self, case, impl):
         if " / " not in case:
             return False
